@@ -1345,5 +1345,7 @@ def call_function(ctx, qual: str, args=(), kwargs=None, stubs=None, self_obj=Non
     finally:
         if isinstance(persist, dict):
             persist.update({k: v for k, v in shared.items() if isinstance(k, tuple) and k and k[0] in ('modvalue', 'classattr', 'const', 'rematch')})
+            if shared.get('module_globals'):
+                persist['module_globals'] = shared['module_globals']       # names rebound through `global`: state of the process
         if isinstance(shared.get('stats'), dict):
             shared['stats']['steps'] = shared['steps']
